@@ -6,7 +6,7 @@ Two ties (DESIGN.md §6 C08):
  (ii) the property's observable: evaluate(parse_isla(sugar)) == evaluate(parse_isla(core)) where `core` is the
       hand expansion of the sugar following the WORDING of sphinx/islaspec.rst (python function elab_doc below,
       written independently of ISLa's algorithm: wrap the whole formula in `forall`, no push-in).
-Disagreements of (ii) are classified: class K_pushin_empty (sugar FALSE, documented core TRUE, and some universally
+Disagreements of (ii) are classified: class K_pushin_empty (sugar FALSE or raising, documented core TRUE, and some universally
 closed variable has an empty domain) is the recorded open finding; everything else is a VIOLATION."""
 import json, random, itertools
 import z3
